@@ -1,0 +1,44 @@
+//! Observation hooks for external verification harnesses.
+//!
+//! This module is compiled only when the cargo feature `verif-hooks`
+//! is enabled. The feature is off by default; with it off, the crate
+//! is byte-for-byte the original code. The hooks never change the
+//! behaviour of the engine: they are no-ops unless a harness has
+//! registered a callback on the current thread.
+//
+// Hooks:
+//   verif_on_bind(ss, id) - called by unify() right after a logic
+//       variable with the given id has been bound in the (new)
+//       substitution set `ss`.
+//   verif_tick() - called on entry to next_solution().
+
+use std::cell::Cell;
+use super::substitution_set::SubstitutionSet;
+
+pub type VerifBindHook = fn(ss: &SubstitutionSet, id: usize);
+pub type VerifTickHook = fn();
+
+thread_local! {
+    static VERIF_ON_BIND: Cell<Option<VerifBindHook>> = Cell::new(None);
+    static VERIF_TICK: Cell<Option<VerifTickHook>> = Cell::new(None);
+}
+
+/// Registers (or clears) the bind observer for the current thread.
+pub fn verif_set_on_bind(hook: Option<VerifBindHook>) {
+    VERIF_ON_BIND.with(|c| c.set(hook));
+}
+
+/// Registers (or clears) the tick observer for the current thread.
+pub fn verif_set_tick(hook: Option<VerifTickHook>) {
+    VERIF_TICK.with(|c| c.set(hook));
+}
+
+#[inline]
+pub fn verif_on_bind(ss: &SubstitutionSet, id: usize) {
+    if let Some(h) = VERIF_ON_BIND.with(|c| c.get()) { h(ss, id); }
+}
+
+#[inline]
+pub fn verif_tick() {
+    if let Some(h) = VERIF_TICK.with(|c| c.get()) { h(); }
+}
